@@ -81,3 +81,16 @@ package ports
 
 //@ interface MetricsExtractor.ExtractFromChunk
 //@   ensures res == nil || finiteMetrics(res)
+
+// ---- C14: what the proxy engine is handed by the translation handler. px* record the last call: the endpoint list,
+// the upstream path and the identity of the body bytes the request carries at that moment.
+//@ ghost var pxCalls int
+//@ ghost var pxEndpoints []*domain.Endpoint
+//@ ghost var pxPath string
+//@ ghost var pxBody int
+//@ interface ProxyService.ProxyRequestToEndpoints
+//@   modifies gvar pxCalls, gvar pxEndpoints, gvar pxPath, gvar pxBody, object w, object stats, ghost(w).started, ghost(w).status, ghost(w).hdr[all], ghost remaining, ghost backing
+//@   records pxCalls = old(pxCalls) + 1
+//@   records pxEndpoints = endpoints
+//@   records pxPath = r.URL.Path
+//@   records pxBody = old(ghost(r.Body).remaining)
